@@ -44,7 +44,7 @@ Fixpoint first_diff (i : nat) (a b : list out) : option nat :=
   end.
 
 Definition model_run (csv auto : bool) (ops : list op) : list out :=
-  fst (run twinE twinC (if csv then csv_norm else (fun p => p)) (negb csv) (init auto) ops).
+  fst (run twinE twinC (if csv then csv_norm else (fun p => p)) (init auto) ops).
 
 (* one case: configuration, operations, the implementation's outputs *)
 Definition case := (bool * bool * list op * list out)%type.
